@@ -271,7 +271,8 @@ class Ctx:
             by_site.setdefault(v.site, []).append(v)
         reported = []
         known_hits = []
-        os.makedirs(os.path.join(VERIF, "replays", self.pid), exist_ok=True)
+        repdir = os.environ.get("VERIF_REPLAY_DIR") or os.path.join(VERIF, "replays")
+        os.makedirs(os.path.join(repdir, self.pid), exist_ok=True)
         n = 0
         for site, vs in sorted(by_site.items()):
             k = match_known(known, site)
@@ -291,8 +292,8 @@ class Ctx:
                 self.harness_errors.append("violation at site %s did not reproduce on replay: %s" % (site, v.desc[:300]))
                 continue
             n += 1
-            path = os.path.join("replays", self.pid, "%d.json" % n)
-            with open(os.path.join(VERIF, path), "w") as f:
+            path = os.path.join(os.path.relpath(repdir, VERIF) if repdir.startswith(VERIF) else repdir, self.pid, "%d.json" % n)
+            with open(os.path.join(repdir, self.pid, "%d.json" % n), "w") as f:
                 json.dump({"property": self.pid, "site": site, "case": v.desc, "message": v.msg[:3000],
                            "count_same_site": len(vs), "replay": v.replay}, f, indent=1)
             reported.append((site, path, v))
